@@ -6,7 +6,7 @@ CONSTANTS
   MaxKw = 3
   MaxSteps = 1000
   MaxRebind = 3
-  CtorModeSet = {"distinct", "equal", "boxed"}
+  CtorModeSet = {"distinct", "equal", "boxed", "asdefault"}
   CallModeSet = {"distinct", "equal", "asbound"}
   FlagAtSet = {"init", "call"}
   AsCoded = FALSE
